@@ -27,6 +27,10 @@ func genOptsFor(r *lib.Rng, i int, bigEvery int) lib.GenOpts {
 	if i%40 == 17 {
 		o.ManyTiny = true
 	}
+	if i%40 == 29 {
+		o.WrapEdit = true
+		o.MaxFiles = 2
+	}
 	if i%5 == 2 {
 		o.MaxFile = 3 * lib.BS
 		o.MaxFiles = 9
